@@ -26,7 +26,9 @@ HOSTILE_NAMES = ["sp ace.txt", "q?uestion.txt", "am&p.txt", "ha#sh.txt", "pl+us.
                  "tab\there.txt", "unié中.txt", b"bad\xff\xfeutf8.txt", b"\xae.txt", "wapiti.txt", "GEMINI-QUERYx.txt",
                  "URL:notreally", "trailing.dot.", "UPPER.TXT", "dir with space/inner file.txt", "d%20x/y.txt",
                  "back\\slash.txt", "star*.txt", "brace{}.txt", "caret^.txt", "dollar$.txt", "excl!.txt", "paren().txt",
-                 "1/one.txt", "newline\nname.txt"]
+                 "1/one.txt", "newline\nname.txt",
+                 # names whose Gopher request line has the outline of another protocol's: three blank-separated parts ending in a number
+                 "Symphony No 5", "a b 3", "notes 2 10", "GET it HTTP", "two words"]
 
 
 def build_tree(tree, full, ctl_names=True):
